@@ -17,6 +17,14 @@
 
 namespace no = nitro::options;
 
+// names of the named groups: the first one is called like the heading of the default group (which is a different
+// group: the default group is not addressable by name)
+static std::string group_name(int k)
+{
+    return k == 1 ? std::string("arguments") : "g" + std::to_string(k);
+}
+
+
 struct DeclItem
 {
     char kind;
@@ -84,7 +92,7 @@ static void declare(no::parser& p, const Decl& d)
 {
     for (auto& it : d.items)
     {
-        no::group& g = it.group == 0 ? p.group() : p.group("g" + std::to_string(it.group));
+        no::group& g = it.group == 0 ? p.group() : p.group(group_name(it.group));
         if (it.kind == 'o')
         {
             auto& o = g.option(it.name, "d");
@@ -254,6 +262,33 @@ static std::string result_str(const Decl& d, const no::arguments& a)
            "|V:" + nv::hex_list(prov) + "|I:" + join(I);
 }
 
+// Results kept by a caller: the positionals of a result are what that parse returned, whatever is done with the
+// parser afterwards (further parses, rejected parses, moving the parser).  Only the positional list is re-read: option
+// values are documented to live in the parser's option objects.
+struct Kept
+{
+    no::arguments result;
+    std::vector<std::string> positionals;
+};
+static bool g_keep = false;
+static std::vector<Kept> g_kept;
+
+static std::string kept_results_changed()
+{
+    std::string r;
+    for (auto& k : g_kept)
+    {
+        bool same = k.result.positionals() == k.positionals;
+        if (same && !k.positionals.empty())
+            same = k.result.get(0) == k.positionals.front() && k.result.get(-1) == k.positionals.back() &&
+                   k.result[-1] == k.positionals.back();
+        if (!same)
+            r = "!kept-result-changed";
+    }
+    g_kept.clear();
+    return r;
+}
+
 static std::string do_parse(no::parser& p, const Decl& d, const std::vector<std::string>& argv)
 {
     std::vector<const char*> av;
@@ -263,6 +298,8 @@ static std::string do_parse(no::parser& p, const Decl& d, const std::vector<std:
     try
     {
         auto a = p.parse(static_cast<int>(av.size()), av.data());
+        if (g_keep)
+            g_kept.push_back(Kept{ a, a.positionals() });
         return result_str(d, a);
     }
     catch (no::parsing_error&)
@@ -454,9 +491,12 @@ static std::string handle(const std::vector<std::string>& f0)
                 }
             }
             set_env(d, f[i]);
+            g_keep = true;
             out += (i > 2 ? ";" : "") + do_parse(*cur, d, nv::unhex_list(f[i + 1]));
+            g_keep = false;
         }
         set_env(d, ".");
+        out += kept_results_changed();
         return out;
     }
     if (op == "I")
@@ -573,7 +613,7 @@ static std::string run_decl(const std::string& ops)
             if (t[0] == "o" || t[0] == "m" || t[0] == "t")
             {
                 int g = std::stoi(t[1]);
-                no::group& grp = g == 0 ? p->group() : p->group("g" + std::to_string(g));
+                no::group& grp = g == 0 ? p->group() : p->group(group_name(g));
                 std::string name = nv::unhex(t[2]);
                 no::base* obj;
                 if (t[0] == "o")
@@ -619,7 +659,7 @@ static std::string run_decl(const std::string& ops)
             }
             else if (t[0] == "grp")
             {
-                p->group("g" + t[1]);
+                p->group(group_name(std::stoi(t[1])));
                 res = "ok";
             }
             else if (t[0] == "move")
